@@ -41,6 +41,7 @@ class TConn:
         self.timeout = None
         self.parser = None
         self.initialized = False
+        self.proxy_protocol_info = {}
 
         # set the socket to non blocking
         self.sock.setblocking(False)
@@ -276,6 +277,13 @@ class ThreadWorker(base.Worker):
             req = next(conn.parser)
             if not req:
                 return (False, conn)
+
+            # the PROXY line is only sent once per connection:
+            # remember it for the following keep-alive requests
+            if req.proxy_protocol_info:
+                conn.proxy_protocol_info = req.proxy_protocol_info
+            else:
+                req.proxy_protocol_info = conn.proxy_protocol_info
 
             # handle the request
             keepalive = self.handle_request(req, conn)
